@@ -172,11 +172,19 @@ fn prune_ops(sc: &Scenario) -> Scenario {
                 used.push(st.op);
             }
         }
+        for o in &t.exit_ops {
+            if !used.contains(o) {
+                used.push(*o);
+            }
+        }
     }
     let remap = |o: u32| used.iter().position(|x| *x == o).unwrap() as u32;
     for t in s.threads.iter_mut() {
         for st in t.steps.iter_mut() {
             st.op = remap(st.op);
+        }
+        for o in t.exit_ops.iter_mut() {
+            *o = remap(*o);
         }
     }
     s.ops = used.iter().map(|i| sc.ops[*i as usize].clone()).collect();
@@ -292,7 +300,7 @@ impl Shrinker {
         }
         let last = best.scenarios.len() - 1;
         // 1. cheap global simplifications
-        for what in ["yield_off", "rekey_off", "start_at_begin", "hashkey_zero"] {
+        for what in ["yield_off", "rekey_off", "start_at_begin", "hashkey_zero", "no_clock_jumps", "no_exit_ops", "default_stacks"] {
             let mut c = best.clone();
             {
                 let sc = &mut c.scenarios[last];
@@ -311,6 +319,23 @@ impl Shrinker {
                     "start_at_begin" => {
                         for t in sc.threads.iter_mut() {
                             t.start = Start::AtBegin;
+                        }
+                    }
+                    "no_clock_jumps" => {
+                        for t in sc.threads.iter_mut() {
+                            for s in t.steps.iter_mut() {
+                                s.clock_jump_ms = 0;
+                            }
+                        }
+                    }
+                    "no_exit_ops" => {
+                        for t in sc.threads.iter_mut() {
+                            t.exit_ops.clear();
+                        }
+                    }
+                    "default_stacks" => {
+                        for t in sc.threads.iter_mut() {
+                            t.stack_kb = 0;
                         }
                     }
                     _ => {
